@@ -66,7 +66,7 @@ class C13(Check):
             "plus 26 code-like / control / unicode strings, the scalar set (ints beyond 2^64, -0.0, 1e300, 1e-7, bool, "
             "None, bytes) and list/tuple/dict nestings of these, is embedded through EVERY entry point that accepts "
             "it (MetaData value and key, AsPandasDF / AsAwkwardArray / AsROOTTTree / AsParquetFiles column names as "
-            "str and as list, tree and file names, declared default of a typed method parameter, captured closure "
+            "str, as list and as tuple, tree and file names, declared default of a typed method parameter, captured closure "
             "variable, captured global); the literal node found at that position must consist of literal node "
             "kinds only and ast.literal_eval of it must give an equal value of the same type recursively; every "
             "Constant inside an emitted lambda must have a transportable scalar type unless the call raised "
@@ -110,6 +110,16 @@ class C13(Check):
             yield "AsROOTTTree.filename", (lambda: ds.AsROOTTTree(v, "t", "c").query_ast.args[3]), v
             yield "AsParquetFiles.filename", (lambda: ds.AsParquetFiles(v, "c").query_ast.args[2]), v
             yield "AsParquetFiles.columns", (lambda: ds.AsParquetFiles("f", v).query_ast.args[1]), [v]
+        if is_str:
+            # column names handed over as a TUPLE of strings
+            yield "AsPandasDF.tuple", (lambda: ds.AsPandasDF((v, "b")).query_ast.args[1]), (v, "b")
+            yield "AsAwkwardArray.tuple1", (lambda: ds.AsAwkwardArray((v,)).query_ast.args[1]), (v,)
+            yield "AsROOTTTree.columns.tuple", (lambda: ds.AsROOTTTree("f", "t", ("a", v)).query_ast.args[1]), ("a", v)
+            yield "AsParquetFiles.columns.tuple", (lambda: ds.AsParquetFiles("f", (v, v)).query_ast.args[1]), (v, v)
+            yield "MetaData.value.tuple", (lambda: ds.MetaData({"k": (v, "b")}).query_ast.args[1]), {"k": (v, "b")}
+        if isinstance(v, tuple) and all(isinstance(x, str) for x in v):
+            yield "AsAwkwardArray.tuple*", (lambda: ds.AsAwkwardArray(v).query_ast.args[1]), v
+            yield "AsROOTTTree.columns.tuple*", (lambda: ds.AsROOTTTree("f", "t", v).query_ast.args[1]), v
         if isinstance(v, list) and all(isinstance(x, str) for x in v):
             yield "AsAwkwardArray.list*", (lambda: ds.AsAwkwardArray(v).query_ast.args[1]), v
 
@@ -267,7 +277,7 @@ def _nested():
         pairs = [("a'b", -0.0), (None, b"x"), (2 ** 64 + 1, "\n"), (True, 1)]
         for a, b in pairs:
             out += [[a, b], (a, b), {"p": a, "q": b}, [[a], (b,)], {"d": {"e": a}, "l": [b, (a,)]}, ([a, {"z": b}],)]
-        out += [[], (), {}, ["x", "y"], ["a'", 'b"', "c\\"]]
+        out += [[], (), {}, ["x", "y"], ["a'", 'b"', "c\\"], ("x", "y"), ("a'",)]
         _NEST.extend(out)
     return _NEST
 
